@@ -1171,8 +1171,13 @@ def main(tier, replay=None):
                        "from_twiss covariance entries of the real code vs the Coq model via interval (tolerance 1e-12 x condition number of D); plus "
                        "implementation-only oracles: identities, from_twiss round trip, permutation/shift/scale/ones, transport through Drift/Quadrupole, "
                        "ParticleBeam.from_twiss within 5 sigma; zero-emittance (clamped) beams of all constructors in float32/float64 for the clauses claimed for every "
-                       "beam (numbers, emittance >= 0, beta > 0); float32/float64 particle beams 30..1e7 sigma off axis vs exact rational statistics. "
-                       "Distinct by content.")
+                       "beam (numbers, emittance >= 0, beta > 0); float32/float64 particle beams 30..1e7 sigma off axis vs exact rational statistics; "
+                       "VECTORISED transport (quadrupole / drift / drift-quadrupole-drift segment with vectorised k1 -- scans through an exact zero, mixed signs -- "
+                       "vectorised lengths and vectorised incoming beams of both types, also with survival weights): every batch entry vs the matrix law of its "
+                       "own textbook block and vs tracking the entry alone; survival-WEIGHTED statistics (0/1 masks, fractional, vectorised masks, float32/64): "
+                       "all six mu_*, all six sigma_*, both covariances vs the exact rational reference (and vs the ordinary statistics of the beam with the lost "
+                       "particles deleted), translation and scaling of each coordinate, permutation, Twiss identity; from_twiss particle beams with random "
+                       "survival. Distinct by content.")
     if replay:
         return do_replay(run, replay)
     proof_ok = run.proof_stage()
@@ -1231,7 +1236,13 @@ def main(tier, replay=None):
                               "zero-emittance beams (make_linspaced / linspaced, two survivors, |correlation| = 1 ParameterBeams also after drift+quadrupole+"
                               "drift; float32 and float64, vectorised): emittance, beta, alpha are numbers, emittance >= 0, beta > 0 (not the Twiss identity: F19)",
                               "beams far off axis (offset 30..1e4 sigma in float32, 1e3..1e7 sigma in float64): getters vs the exact rational statistics of the "
-                              "stored coordinates and translation invariance, tolerance = rounding bound of the two-pass formulas in the dtype"]
+                              "stored coordinates and translation invariance, tolerance = rounding bound of the two-pass formulas in the dtype",
+                              "vectorised transport: per-entry matrix law with the textbook blocks (cos/sin, cosh/sinh, drift; an exactly zero strength may be "
+                              "tracked as k1 = 1e-12, the documented guard of base_rmatrix) at 1e-9 x condition; the per-entry law itself is proved "
+                              "(C17_twiss_transport_vectorised, C17_quad_block_det)",
+                              "survival-weighted statistics of all coordinates vs exact rational arithmetic (tolerance: 4 x the rounding bound of the two-pass "
+                              "formulas); the real-number statements are proved per coordinate (C17_stats_*_every_coordinate, C17_stats_lost_particles_absent); "
+                              "mu/sigma of px, py, tau, p are also compared with the Coq model by interval"]
     if NONFINITE_OBS and not impl_bad:
         impl_bad.append({"kind": "nonfinite_observation", "case": NONFINITE_OBS[0], "n": len(NONFINITE_OBS),
                          "diffs": "a Twiss / moment getter returned NaN or inf for a non-degenerate beam"})
